@@ -338,10 +338,13 @@ func readCompressedJSONLinesFromReader[T any](reader io.Reader, codec Compressio
 		var record T
 		decoder := json.NewDecoder(bytes.NewReader(line))
 		decoder.DisallowUnknownFields()
+		// Numbers inside property maps must not pass through float64: an int64 beyond 2^53 would be rounded.
+		decoder.UseNumber()
 		if err := decoder.Decode(&record); err != nil {
 			decodeErr = fmt.Errorf("decode JSONL record %d: %w", count+1, err)
 			break
 		}
+		normalizeFragmentRecordNumbers(&record)
 		if err := decoder.Decode(&struct{}{}); err != io.EOF {
 			if err == nil {
 				decodeErr = fmt.Errorf("decode JSONL record %d: multiple JSON values", count+1)
